@@ -1,0 +1,123 @@
+//! Verification hooks.
+//!
+//! This module only exists when the crate is built with
+//! `--cfg cloudflare_wirefilter_verif`. It lets an external verification
+//! harness steer and observe decisions that are otherwise random or hidden,
+//! without changing what the engine computes:
+//!
+//! * the byte position ("anchor") that the SIMD `contains` searcher hashes
+//!   together with the first byte of the needle is normally drawn from an RNG
+//!   on every compilation; [`set_contains_anchor`] forces it for the current
+//!   thread so that every position can be explored deterministically;
+//! * [`last_contains_searcher`] tells which searcher implementation the most
+//!   recent compilation of a `contains` expression selected on the current
+//!   thread (read-only, for coverage measurements).
+//!
+//! Nothing in here is compiled when the cfg is off.
+
+use std::cell::Cell;
+
+/// Which searcher implementation a `contains` expression was compiled to.
+#[derive(Clone, Copy, Debug, PartialEq, Eq, Hash)]
+pub enum ContainsSearcherKind {
+    /// Empty needle: `EmptySearcher`.
+    Empty,
+    /// One-byte needle: `sliceslice::MemchrSearcher`.
+    Memchr,
+    /// Needle of 2..=16 bytes on the AVX2 path:
+    /// `Avx2Searcher<[u8; N]>` (the payload is `N`).
+    Avx2Array(usize),
+    /// Needle of more than 16 bytes on the AVX2 path:
+    /// `Avx2Searcher<Box<[u8]>>`.
+    Avx2Boxed,
+    /// wasm32 SIMD128 path: `Wasm32Searcher<Box<[u8]>>`.
+    Simd128,
+    /// Scalar fallback: `memchr::memmem::Finder`.
+    Memmem,
+}
+
+/// Description of the most recently selected `contains` searcher.
+#[derive(Clone, Copy, Debug, PartialEq, Eq, Hash)]
+pub struct ContainsSearcherInfo {
+    /// Selected implementation.
+    pub kind: ContainsSearcherKind,
+    /// Length of the needle in bytes.
+    pub needle_len: usize,
+    /// Anchor position handed to the SIMD searcher (`None` for the
+    /// non-SIMD searchers).
+    pub position: Option<usize>,
+    /// Whether `position` came from [`set_contains_anchor`] rather than
+    /// from the RNG.
+    pub position_forced: bool,
+}
+
+thread_local! {
+    static CONTAINS_ANCHOR: Cell<Option<usize>> = const { Cell::new(None) };
+    static LAST_CONTAINS_SEARCHER: Cell<Option<ContainsSearcherInfo>> = const { Cell::new(None) };
+}
+
+/// Forces the anchor position used by SIMD `contains` searchers compiled on
+/// the current thread from now on, and returns the previous setting.
+///
+/// `None` restores the default (a random position per compilation). A
+/// position that is not valid for a given needle (valid positions are
+/// `1..needle.len()`) is ignored for that needle and the RNG is used, so the
+/// override can never make the engine panic or index out of bounds.
+pub fn set_contains_anchor(position: Option<usize>) -> Option<usize> {
+    CONTAINS_ANCHOR.with(|cell| cell.replace(position))
+}
+
+/// Returns the override installed by [`set_contains_anchor`] for the current
+/// thread, if any.
+pub fn contains_anchor() -> Option<usize> {
+    CONTAINS_ANCHOR.with(|cell| cell.get())
+}
+
+/// Returns which searcher the most recent compilation of a `contains`
+/// expression selected on the current thread.
+pub fn last_contains_searcher() -> Option<ContainsSearcherInfo> {
+    LAST_CONTAINS_SEARCHER.with(|cell| cell.get())
+}
+
+/// Forgets the record returned by [`last_contains_searcher`].
+pub fn reset_last_contains_searcher() {
+    LAST_CONTAINS_SEARCHER.with(|cell| cell.set(None));
+}
+
+/// Records the selection of a non-SIMD searcher.
+#[allow(dead_code)]
+pub(crate) fn record_contains_searcher(kind: ContainsSearcherKind, needle_len: usize) {
+    LAST_CONTAINS_SEARCHER.with(|cell| {
+        cell.set(Some(ContainsSearcherInfo {
+            kind,
+            needle_len,
+            position: None,
+            position_forced: false,
+        }))
+    });
+}
+
+/// Chooses the anchor position for a SIMD searcher: the thread-local override
+/// when it is set and valid for this needle, `random` (the position the engine
+/// drew from its RNG) otherwise. Records the selection.
+#[allow(dead_code)]
+pub(crate) fn choose_contains_anchor(simd128: bool, needle_len: usize, random: usize) -> usize {
+    let forced = contains_anchor().filter(|position| (1..needle_len).contains(position));
+    let position = forced.unwrap_or(random);
+    let kind = if simd128 {
+        ContainsSearcherKind::Simd128
+    } else if needle_len <= 16 {
+        ContainsSearcherKind::Avx2Array(needle_len)
+    } else {
+        ContainsSearcherKind::Avx2Boxed
+    };
+    LAST_CONTAINS_SEARCHER.with(|cell| {
+        cell.set(Some(ContainsSearcherInfo {
+            kind,
+            needle_len,
+            position: Some(position),
+            position_forced: forced.is_some(),
+        }))
+    });
+    position
+}
